@@ -149,7 +149,7 @@ func (r *Report) Finish() int {
 
 	cov := map[string]interface{}{
 		"evaluations":         r.Evaluations,
-		"distinct_nontrivial": len(r.Outcomes),
+		"distinct_nontrivial": len(r.Outcomes) + r.States,
 		"rule":                r.Rule,
 		"samples":             r.Samples,
 		"exhaustive":          r.Exhaustive && len(r.Infra) == 0,
